@@ -129,7 +129,7 @@ class LangGen:
         if len(names) and n == 0 and rng.random() < 0.7:
             n = 1
         assoc_names = []
-        fld = 0
+        fld = rng.choice([0, 0, 1, 4, 10])      # the same association name has other field names in another language
         tmp = Lang(spec, snapshot=False)
         for i in range(n):
             l, r = rng.choice(names), rng.choice(names)
@@ -144,8 +144,8 @@ class LangGen:
             sig = (nm, l, r)
             existing = [(a['name'], a['leftAsset'], a['rightAsset']) for a in spec['associations']]
             flipped = (nm, r, l)
-            if flipped in existing and l != r:
-                nm = 'Assoc%d' % i
+            if flipped in existing and l != r and rng.random() < 0.5:
+                nm = 'Assoc%d' % i        # (else: the same name is declared for (X, Y) and for (Y, X))
             elif sig in existing and rng.random() >= cfg.same_sig_dups:
                 # same name AND same end types (only the fields differ) is kept with
                 # probability same_sig_dups (C06 / C15: F26)
